@@ -724,6 +724,72 @@ HARNESSES += [
      1, 2),
 ]
 
+def _strict_warnings_setup():
+    reset_switch()
+    import warnings
+    _STRICT['saved'] = list(warnings.filters)
+    warnings.simplefilter('error')
+
+
+def _strict_warnings_teardown():
+    import warnings
+    if 'saved' in _STRICT:
+        warnings.filters[:] = _STRICT.pop('saved')
+        try:
+            warnings._filters_mutated()
+        except AttributeError:
+            pass
+    reset_switch()
+
+
+_STRICT = {}
+
+
+def _decode_view(buf):
+    return lambda p: _try(lambda: _view(p.frame.unmarshal(buf)))
+
+
+def _construct_deprecated(p):
+    """Under -W error the application's own use of the deprecated command
+    must still be refused: the filters are the application's, not ours."""
+    try:
+        p.commands.Basic.RecoverAsync()
+        return 'constructed'
+    except Warning as exc:
+        return ['raised', type(exc).__name__]
+
+
+def _strict_probe(p):
+    """What the application set up is still in force: its own use of the
+    deprecated command is refused, and the filter list is the one it set."""
+    import warnings
+    return [_construct_deprecated(p),
+            [f[0] for f in warnings.filters[:3]],
+            len(warnings.filters) - len(_STRICT.get('saved', []))]
+
+
+# warnings raised as errors (-W error): received frames of a deprecated
+# method decode in both threads, and the process-wide warning filters are
+# what they were afterwards (post-probe)
+HARNESSES += [
+    ('[warnings as errors] decode deprecated method || decode deprecated '
+     'method', [
+        _call('unmarshal Basic.RecoverAsync',
+              _decode_view(c16events.BUF_RECOVER_ASYNC)),
+        _call('unmarshal Basic.RecoverAsync; construct one',
+              lambda p: [_decode_view(c16events.BUF_RECOVER_ASYNC)(p),
+                         _construct_deprecated(p)])], 2, 3,
+     {'cold': False, 'setup': _strict_warnings_setup,
+      'teardown': _strict_warnings_teardown, 'probe': _strict_probe}),
+    ('[warnings as errors] decode deprecated method || decode Basic.Ack', [
+        _call('unmarshal Basic.RecoverAsync',
+              _decode_view(c16events.BUF_RECOVER_ASYNC)),
+        _call('unmarshal Basic.Ack; construct deprecated',
+              lambda p: [_decode_view(ACK)(p), _construct_deprecated(p)])],
+     2, 3, {'cold': False, 'setup': _strict_warnings_setup,
+            'teardown': _strict_warnings_teardown, 'probe': _strict_probe}),
+]
+
 # cache pressure: each thread handles ONE input with hundreds of names /
 # integers / strings never seen before (different ones per thread), so that
 # whatever the library memoises fills up, evicts and trims while the other
@@ -819,17 +885,42 @@ def explore_schedules(ctx, h, shard, bound, cold=False):
     custom = opts.get('custom', {})
     if cold:
         name += ' [cold library]'
+    h_setup = opts.get('setup', reset_switch)
+    h_teardown = opts.get('teardown', reset_switch)
     reset_switch()
     logging.disable(logging.CRITICAL)
     sequential = []
     for b in bodies:
         if cold:
             cold_start()
-        reset_switch()
-        sequential.append(b())
+        h_setup()
+        try:
+            sequential.append(b())
+        finally:
+            h_teardown()
     reset_switch()
-    runner = sched.Runner(bodies, setup=cold_start if cold else reset_switch,
-                          teardown=reset_switch)
+    # an optional probe of process state, taken after the threads are done
+    # and BEFORE the environment of the harness is taken down
+    probe = opts.get('probe')
+    probed = {}
+    want_probe = None
+    if probe:
+        h_setup()
+        try:
+            for b in bodies:
+                b()
+            want_probe = probe(lib.pamqp())
+        finally:
+            h_teardown()
+
+    def teardown_with_probe():
+        try:
+            if probe:
+                probed['got'] = probe(lib.pamqp())
+        finally:
+            h_teardown()
+    runner = sched.Runner(bodies, setup=cold_start if cold else h_setup,
+                          teardown=teardown_with_probe)
     if not cold:
         # warm library: let caches settle (first / second sighting) so that
         # every execution of the exploration starts from the same state
@@ -883,6 +974,18 @@ def explore_schedules(ctx, h, shard, bound, cold=False):
                           {'kind': 'sched', 'h': h, 'cold': cold,
                            'choices': list(x.choices)},
                           short(sequential, 400), short(results, 400))
+        elif probe and probed.get('got') != want_probe:
+            ctx.outcome('schedule-left-state-behind')
+            ctx.violation('sched-probe|{}|{}'.format(h, [
+                i for i, c in enumerate(x.choices) if c]),
+                'harness "{}": after the schedule with switches at points {} '
+                'the process is left in another state than after the same '
+                'calls made sequentially: {} instead of {}'.format(
+                    name, [(i, c) for i, c in enumerate(x.choices) if c],
+                    short(probed.get('got'), 200), short(want_probe, 200)),
+                {'kind': 'sched', 'h': h, 'cold': cold,
+                 'choices': list(x.choices)}, short(want_probe, 300),
+                short(probed.get('got'), 300))
         else:
             ctx.outcome('ok')
             # post-probe: the same calls made one after the other once the
@@ -890,8 +993,11 @@ def explore_schedules(ctx, h, shard, bound, cold=False):
             # ran (a verdict or buffer left behind by the race shows here)
             after = []
             for b in bodies:
-                reset_switch()
-                after.append(b())
+                h_setup()
+                try:
+                    after.append(b())
+                finally:
+                    h_teardown()
             reset_switch()
             if [after[t] for t in judged] != [sequential[t] for t in judged]:
                 ctx.outcome('schedule-left-state-behind')
